@@ -49,32 +49,75 @@ Tern(c, x, y) == [t |-> "tern", c |-> c, x |-> x, y |-> y]
 Neg(e)        == [t |-> "neg", e |-> e]
 Par(e)        == [t |-> "par", e |-> e]
 
-BinOps == {"*", "/", "+", "-", "<<", ">>", "<", "==", "&", "^", "|", "&&", "||"}
-Prec(op) == CASE op \in {"*", "/"} -> 10 [] op \in {"+", "-"} -> 9 [] op \in {"<<", ">>"} -> 8
+BinOps == {"*", "/", "%", "+", "-", "<<", ">>", "<", "==", "&", "^", "|", "&&", "||"}
+Prec(op) == CASE op \in {"*", "/", "%"} -> 10 [] op \in {"+", "-"} -> 9 [] op \in {"<<", ">>"} -> 8
               [] op = "<" -> 7 [] op = "==" -> 6 [] op = "&" -> 5 [] op = "^" -> 4 [] op = "|" -> 3
               [] op = "&&" -> 2 [] op = "||" -> 1
 
-ArgClasses == {"var", "add", "sub", "mul", "div", "shr", "band", "bor", "bxor", "tern", "lor", "land", "neg", "call", "cast", "paren"}
-\* the tree of an argument of class c over the variable named v
-ArgTree(c, v) ==
-  CASE c = "var"   -> Atom(v)
-    [] c = "add"   -> Bin("+", Atom(v), Atom("z"))
-    [] c = "sub"   -> Bin("-", Atom(v), Atom("z"))
-    [] c = "mul"   -> Bin("*", Atom(v), Atom("u"))
-    [] c = "div"   -> Bin("/", Atom(v), Atom("u"))
-    [] c = "shr"   -> Bin(">>", Atom(v), Atom("z"))
-    [] c = "band"  -> Bin("&", Atom(v), Atom("m"))
-    [] c = "bor"   -> Bin("|", Atom(v), Atom("z"))
-    [] c = "bxor"  -> Bin("^", Atom(v), Atom("z"))
-    [] c = "tern"  -> Tern(Atom("z"), Atom("z"), Atom(v))
-    [] c = "lor"   -> Bin("||", Atom(v), Atom("z"))          \* value v only for v in {0,1}
-    [] c = "land"  -> Bin("&&", Atom(v), Atom("u"))          \* value v only for v in {0,1}
-    [] c = "neg"   -> Neg(Atom("n" \o v))                    \* n<v> is declared as -v
-    [] c = "call"  -> Atom("idf(" \o v \o ")")
-    [] c = "cast"  -> Atom("(int) " \o v)
-    [] c = "paren" -> Par(Bin("+", Atom(v), Atom("z")))
-\* classes whose value is the variable only on {0,1}
-BoolOnly == {"lor", "land"}
+(* Argument classes: at least one representative per C precedence level, for index arguments (IdxTree) and
+   for dimension arguments (DimTree).  The operands are chosen so that a WRONG grouping changes the value
+   -- invariant Sensitive checks exactly that on the kernels that are executed.  Run-time constants:
+   z = 0, u = 1, w = 2, t = 3, m = 7 (passed as kernel arguments, so nothing is folded).
+     level            index argument over v                       dimension argument over d
+     multiplicative   mul  v * u                                  mul  d * u
+                      div  (v * w + u) / w        (= v)           div  (d * w + u) / w
+                      mod  (v + t) % w            (NOT v)         dmod d % m
+     additive         add  (v - u) + u                            add  (d - u) + u
+                      sub  (v + u) - u                            sub  (d + u) - u
+     shift            shr  (v * w + u) >> u       (= v)           shr  (d * w + u) >> u
+     relational       lt   z < v                  (v in {0,1})
+     equality         eq   v == u                 (v in {0,1})
+     bitwise and      band v & v                                  band d & m
+     bitwise xor      bxor (v ^ w) ^ w                            bxor d ^ z
+     bitwise or       bor  v & w | v & u          (= v below 4)   bor  d | z
+     logical and/or   land v && u,  lor  v || z   (v in {0,1})
+     conditional      tern u ? v : z   (condition TRUE, so a captured tail is dropped)   tern u ? d : z
+     unary / primary  neg -n<v>, call idf(v), cast (int) v, paren (v + z)               call, cast, paren
+   The comma operator cannot head an argument (it would separate arguments) unless parenthesised,
+   which is the class paren.                                                                      *)
+IdxClasses == {"var", "add", "sub", "mul", "div", "mod", "shr", "lt", "eq", "band", "bor", "bxor",
+               "tern", "lor", "land", "neg", "call", "cast", "paren"}
+DimClasses == {"var", "add", "sub", "mul", "div", "dmod", "shr", "band", "bor", "bxor", "tern", "call", "cast", "paren"}
+ArgClasses == IdxClasses
+A(nm) == Atom(nm)
+Odd(v) == Par(Bin("+", Bin("*", A(v), A("w")), A("u")))        \* (v * w + u)
+IdxTree(c, v) ==
+  CASE c = "var"   -> A(v)
+    [] c = "add"   -> Bin("+", Par(Bin("-", A(v), A("u"))), A("u"))
+    [] c = "sub"   -> Bin("-", Par(Bin("+", A(v), A("u"))), A("u"))
+    [] c = "mul"   -> Bin("*", A(v), A("u"))
+    [] c = "div"   -> Bin("/", Odd(v), A("w"))
+    [] c = "mod"   -> Bin("%", Par(Bin("+", A(v), A("t"))), A("w"))
+    [] c = "shr"   -> Bin(">>", Odd(v), A("u"))
+    [] c = "lt"    -> Bin("<", A("z"), A(v))
+    [] c = "eq"    -> Bin("==", A(v), A("u"))
+    [] c = "band"  -> Bin("&", A(v), A(v))
+    [] c = "bor"   -> Bin("|", Bin("&", A(v), A("w")), Bin("&", A(v), A("u")))
+    [] c = "bxor"  -> Bin("^", Par(Bin("^", A(v), A("w"))), A("w"))
+    [] c = "tern"  -> Tern(A("u"), A(v), A("z"))
+    [] c = "lor"   -> Bin("||", A(v), A("z"))
+    [] c = "land"  -> Bin("&&", A(v), A("u"))
+    [] c = "neg"   -> Neg(A("n" \o v))                    \* n<v> is declared as -v
+    [] c = "call"  -> A("idf(" \o v \o ")")
+    [] c = "cast"  -> A("(int) " \o v)
+    [] c = "paren" -> Par(Bin("+", A(v), A("z")))
+DimTree(c, d) ==
+  CASE c = "var"   -> A(d)
+    [] c = "add"   -> Bin("+", Par(Bin("-", A(d), A("u"))), A("u"))
+    [] c = "sub"   -> Bin("-", Par(Bin("+", A(d), A("u"))), A("u"))
+    [] c = "mul"   -> Bin("*", A(d), A("u"))
+    [] c = "div"   -> Bin("/", Odd(d), A("w"))
+    [] c = "dmod"  -> Bin("%", A(d), A("m"))
+    [] c = "shr"   -> Bin(">>", Odd(d), A("u"))
+    [] c = "band"  -> Bin("&", A(d), A("m"))
+    [] c = "bor"   -> Bin("|", A(d), A("z"))
+    [] c = "bxor"  -> Bin("^", A(d), A("z"))
+    [] c = "tern"  -> Tern(A("u"), A(d), A("z"))
+    [] c = "call"  -> A("idf(" \o d \o ")")
+    [] c = "cast"  -> A("(int) " \o d)
+    [] c = "paren" -> Par(Bin("+", A(d), A("z")))
+\* classes that need the variable in {0,1} to stay in range (the position gets dimension 2)
+BoolOnly == {"lor", "land", "lt", "eq"}
 
 RECURSIVE PrintC(_), Strip(_)
 PrintC(e) ==
@@ -110,17 +153,59 @@ ParseRest(ts, lhs, p, minPrec) ==
 ParseExpr(ts, p, minPrec) == LET l == ParsePrimary(ts, p) IN ParseRest(ts, l.e, l.p, minPrec)
 ParseC(ts) == ParseExpr(ts, 1, 0).e
 
+\* ---- C values of trees --------------------------------------------------------------------
+VarName(j) == <<"i1", "i2", "i3", "i4">>[j]
+DimName(j) == <<"d1", "d2", "d3", "d4">>[j]
+RECURSIVE BAnd(_, _), BOr(_, _), BXor(_, _), Pow2(_)
+BAnd(p, q) == IF p = 0 \/ q = 0 THEN 0 ELSE (p % 2) * (q % 2) + 2 * BAnd(p \div 2, q \div 2)
+BOr(p, q)  == IF p = 0 THEN q ELSE IF q = 0 THEN p
+              ELSE (IF (p % 2) + (q % 2) > 0 THEN 1 ELSE 0) + 2 * BOr(p \div 2, q \div 2)
+BXor(p, q) == IF p = 0 THEN q ELSE IF q = 0 THEN p
+              ELSE (((p % 2) + (q % 2)) % 2) + 2 * BXor(p \div 2, q \div 2)
+Pow2(n)    == IF n <= 0 THEN 1 ELSE 2 * Pow2(n - 1)
+CDiv(p, q) == IF p >= 0 THEN p \div q ELSE -((-p) \div q)
+Bool(b)    == IF b THEN 1 ELSE 0
+\* value of a name for dimensions D and index tuple a (z u w t m are the run-time constants)
+NameVal(nm, D, a) ==
+  CASE nm = "z" -> 0 [] nm = "u" -> 1 [] nm = "w" -> 2 [] nm = "t" -> 3 [] nm = "m" -> 7
+    [] \E j \in 1..Len(D) : nm \in {VarName(j), "idf(" \o VarName(j) \o ")", "(int) " \o VarName(j)} ->
+         a[CHOOSE j \in 1..Len(D) : nm \in {VarName(j), "idf(" \o VarName(j) \o ")", "(int) " \o VarName(j)}]
+    [] \E j \in 1..Len(D) : nm = "n" \o VarName(j) -> -a[CHOOSE j \in 1..Len(D) : nm = "n" \o VarName(j)]
+    [] \E j \in 1..Len(D) : nm \in {DimName(j), "idf(" \o DimName(j) \o ")", "(int) " \o DimName(j)} ->
+         D[CHOOSE j \in 1..Len(D) : nm \in {DimName(j), "idf(" \o DimName(j) \o ")", "(int) " \o DimName(j)}]
+RECURSIVE Eval(_, _, _)
+Eval(e, D, a) ==
+  CASE e.t = "atom" -> NameVal(e.nm, D, a)
+    [] e.t = "par"  -> Eval(e.e, D, a)
+    [] e.t = "neg"  -> -Eval(e.e, D, a)
+    [] e.t = "tern" -> IF Eval(e.c, D, a) # 0 THEN Eval(e.x, D, a) ELSE Eval(e.y, D, a)
+    [] e.t = "bin"  ->
+         LET p == Eval(e.l, D, a)  q == Eval(e.r, D, a) IN
+         CASE e.op = "*" -> p * q [] e.op = "+" -> p + q [] e.op = "-" -> p - q
+           [] e.op = "/" -> IF q = 0 THEN 0 ELSE CDiv(p, q)
+           [] e.op = "%" -> IF q = 0 THEN 0 ELSE p - q * CDiv(p, q)
+           [] e.op = "<<" -> p * Pow2(q) [] e.op = ">>" -> p \div Pow2(q)
+           [] e.op = "<" -> Bool(p < q) [] e.op = "==" -> Bool(p = q)
+           [] e.op = "&" -> IF p < 0 \/ q < 0 THEN -1 ELSE BAnd(p, q)
+           [] e.op = "|" -> IF p < 0 \/ q < 0 THEN -1 ELSE BOr(p, q)
+           [] e.op = "^" -> IF p < 0 \/ q < 0 THEN -1 ELSE BXor(p, q)
+           [] e.op = "&&" -> Bool(p # 0 /\ q # 0) [] e.op = "||" -> Bool(p # 0 \/ q # 0)
+
 \* wrapInParentheses: operator nodes get a parenthesis node, everything else is left alone
 Wrap(e) == IF e.t \in {"bin", "tern", "neg"} THEN Par(e) ELSE e
 
 \* dim::applyCodeTransformations: index = arg[o_n]; for i = n-1 .. 1:
 \*     index = ARG(arg[o_i]) + ( (dim[o_i]) * (index) )        ARG = Wrap when WrapArgs
-RECURSIVE BuildFrom(_, _, _, _)
-BuildFrom(args, dims, o, j) ==
+\* `omit` names ONE wrap that is left out (<<"none", 0>> for the code as it is): used to ask what a
+\* missing pair of parentheses at that site would do.
+RECURSIVE BuildFrom(_, _, _, _, _)
+BuildFrom(args, dims, o, j, omit) ==
   IF j = Len(o) THEN args[o[j]]
-  ELSE Bin("+", IF WrapArgs THEN Wrap(args[o[j]]) ELSE args[o[j]],
-                Par(Bin("*", Wrap(dims[o[j]]), Wrap(BuildFrom(args, dims, o, j + 1)))))
-Build(args, dims, o) == BuildFrom(args, dims, o, 1)
+  ELSE LET W(kind, e) == IF omit = <<kind, j>> THEN e ELSE Wrap(e)
+       IN Bin("+", IF WrapArgs THEN W("arg", args[o[j]]) ELSE args[o[j]],
+                   Par(Bin("*", W("dim", dims[o[j]]), W("idx", BuildFrom(args, dims, o, j + 1, omit)))))
+Build(args, dims, o) == BuildFrom(args, dims, o, 1, <<"none", 0>>)
+Sites(n) == {<<kind, j>> : kind \in {"arg", "dim", "idx"}, j \in 1..(n - 1)}
 \* what the rewrite MEANS: the same tree with every argument wrapped
 RECURSIVE MeantFrom(_, _, _, _)
 MeantFrom(args, dims, o, j) ==
@@ -128,13 +213,16 @@ MeantFrom(args, dims, o, j) ==
   ELSE Bin("+", Par(args[o[j]]), Par(Bin("*", Par(dims[o[j]]), Par(MeantFrom(args, dims, o, j + 1)))))
 ArgsWhole(args, dims, o) == Strip(ParseC(PrintC(Build(args, dims, o)))) = Strip(MeantFrom(args, dims, o, 1))
 
-VarName(j) == <<"i1", "i2", "i3", "i4">>[j]
-DimName(j) == <<"d1", "d2", "d3", "d4">>[j]
-ArgTrees(kk) == [j \in 1..kk.n |-> ArgTree(kk.cls[j], VarName(j))]
-DimTrees(kk) == [j \in 1..kk.n |-> ArgTree(kk.dcls[j], DimName(j))]
+ArgTrees(kk) == [j \in 1..kk.n |-> IdxTree(kk.cls[j], VarName(j))]
+DimTrees(kk) == [j \in 1..kk.n |-> DimTree(kk.dcls[j], DimName(j))]
 
 -----------------------------------------------------------------------------
 (* The machine: pick a kernel shape, access every in-range tuple once (any order). *)
+\* what the access MEANS numerically: the documented index of the argument VALUES under the dimension VALUES
+Vals(kk, a) == [j \in 1..kk.n |-> Eval(ArgTrees(kk)[j], kk.D, a)]
+DimVals(kk) == [j \in 1..kk.n |-> Eval(DimTrees(kk)[j], kk.D, [i \in 1..kk.n |-> 0])]
+Cell(kk, a) == Lin(DimVals(kk), kk.o, Vals(kk, a))
+
 DInit == /\ dk \in DimKernels
          /\ dpc = "enum"
          /\ todo = Tuples(dk.D)
@@ -143,7 +231,7 @@ DInit == /\ dk \in DimKernels
 \* canonical order (smallest linear index first) keeps the state graph a chain
 Access == /\ dpc = "enum" /\ todo # {}
           /\ LET a == CHOOSE t \in todo : \A s \in todo : Lin(dk.D, dk.o, t) <= Lin(dk.D, dk.o, s)
-             IN /\ acc' = Append(acc, [a |-> a, cell |-> Lin(dk.D, dk.o, a)])
+             IN /\ acc' = Append(acc, [a |-> a, cell |-> Cell(dk, a)])
                 /\ todo' = todo \ {a}
           /\ UNCHANGED <<dk, dpc>>
 Finish == /\ dpc = "enum" /\ todo = {}
@@ -168,6 +256,26 @@ UnwrappedWholeIff ==
   (dpc = "done" /\ ~WrapArgs) => (ArgsWhole(ArgTrees(dk), DimTrees(dk), dk.o)
                   <=> \A j \in 1..(dk.n - 1) : TopPrec(ArgTrees(dk)[dk.o[j]]) >= 9)
 
-DCase == [k |-> dk, exp |-> acc, cells |-> Prod(dk.D, 1)]
+\* the argument values stay inside the dimensions (so the meant cell is a legal one)
+ArgsInRange == dpc = "done" => \A a \in Tuples(dk.D) : \A j \in 1..dk.n :
+                                  Vals(dk, a)[j] >= 0 /\ Vals(dk, a)[j] < DimVals(dk)[j]
+\* the meant tree evaluates to the documented index of the values
+MeantIsLin == dpc = "done" => \A a \in Tuples(dk.D) :
+                Eval(MeantFrom(ArgTrees(dk), DimTrees(dk), dk.o, 1), dk.D, a) = Cell(dk, a)
+\* NON-VACUITY OF THE OPERANDS: leave out any single pair of parentheses the rewrite adds; if the printed
+\* text then parses to a different tree, some in-range access must read a different cell -- i.e. every
+\* wrong grouping the printer could produce for this kernel is VISIBLE to the replay.
+\* x * (v * u) printed bare is (x * v) * u: another tree, the same value (short of overflow)
+HarmlessSite(site) == site[1] = "idx" /\ site[2] = dk.n - 1 /\ dk.cls[dk.o[dk.n]] = "mul"
+Sensitive ==
+  dpc = "done" =>
+    \A site \in Sites(dk.n) :
+      LET p == ParseC(PrintC(BuildFrom(ArgTrees(dk), DimTrees(dk), dk.o, 1, site)))
+      IN (Strip(p) # Strip(MeantFrom(ArgTrees(dk), DimTrees(dk), dk.o, 1)) /\ ~HarmlessSite(site))
+           => \E a \in Tuples(dk.D) : Eval(p, dk.D, a) # Cell(dk, a)
+
+\* args / dims: the argument expressions as token sequences ("neg" = unary minus), rendered verbatim by the harness
+DCase == [k |-> dk, exp |-> acc, cells |-> Prod(dk.D, 1),
+          args |-> [j \in 1..dk.n |-> PrintC(ArgTrees(dk)[j])], dims |-> [j \in 1..dk.n |-> PrintC(DimTrees(dk)[j])]]
 DEmit == dpc = "done" => PrintT(<<"B", ToJson(DCase)>>)
 =============================================================================
